@@ -37,8 +37,12 @@ type ConnCase struct {
 	// ReuseAliases: the broker hands a closed upstream's stream alias out again. LateUps: further bystander upstreams (QoS list)
 	// opened when the first ones are done; before each, a pilot stream is opened, acknowledged once and closed - so with alias
 	// reuse the late stream takes over the alias the pilot's acks were just routed for (seeded change C07/m3)
-	ReuseAliases bool  `json:"reuse_aliases,omitempty"`
-	LateUps      []int `json:"late_ups,omitempty"`
+	// DefaultPolicy: the bystander upstreams are opened WITHOUT a flush-policy option (library default: 100 ms interval or
+	// 10 000 bytes) and never call Flush: their data flows on the default interval whatever other streams (victims, opened and
+	// closed with the same default) do (seeded change C07/m6: the default policy object shared one ticker between streams)
+	DefaultPolicy bool  `json:"default_policy,omitempty"`
+	ReuseAliases  bool  `json:"reuse_aliases,omitempty"`
+	LateUps       []int `json:"late_ups,omitempty"`
 }
 
 const perCall = 8 * time.Second
@@ -128,8 +132,12 @@ func runConn(c ConnCase, k *ev.Case) *ev.Failure {
 	ups := make([]*upRec, len(c.UpQoS))
 	for i, q := range c.UpQoS {
 		r := &upRec{name: fmt.Sprintf("u%d", i), hooks: &upk.HookRec{}}
-		r.up, err = conn.OpenUpstream(ctx, "by-"+r.name, iscp.WithUpstreamQoS(message.QoS(q)), c.Policy.Option(), iscp.WithUpstreamReceiveAckHooker(r.hooks),
-			iscp.WithUpstreamSendDataPointsHooker(r.hooks), iscp.WithUpstreamClosedEventHandler(r.hooks), iscp.WithUpstreamCloseTimeout(2*time.Second))
+		uopts := []iscp.UpstreamOption{iscp.WithUpstreamQoS(message.QoS(q)), iscp.WithUpstreamReceiveAckHooker(r.hooks),
+			iscp.WithUpstreamSendDataPointsHooker(r.hooks), iscp.WithUpstreamClosedEventHandler(r.hooks), iscp.WithUpstreamCloseTimeout(2 * time.Second)}
+		if !c.DefaultPolicy {
+			uopts = append(uopts, c.Policy.Option())
+		}
+		r.up, err = conn.OpenUpstream(ctx, "by-"+r.name, uopts...)
 		if err != nil {
 			return ev.Failf("harness", "open %s: %v", r.name, err)
 		}
@@ -174,7 +182,7 @@ func runConn(c ConnCase, k *ev.Case) *ev.Failure {
 				id := &message.DataID{Name: "id-" + r.name, Type: "t"}
 				wctx, wc := sim.Ctx(perCall)
 				err := r.up.WriteDataPoints(wctx, id, p)
-				if err == nil {
+				if err == nil && !c.DefaultPolicy {
 					err = r.up.Flush(wctx)
 				}
 				wc()
@@ -331,6 +339,38 @@ func runConn(c ConnCase, k *ev.Case) *ev.Failure {
 		// every call in there has a deadline of at most 8 s: something is blocked beyond its context - a lifecycle operation of
 		// one stream (or a stray message for it) has wedged the others
 		return ev.Failf("C07.2 streams-blocked", "20 s after the start, bystander writers or lifecycle operations of other streams (victims %v) are still blocked although every call had a deadline of at most 8 s", c.Victims)
+	}
+	// default flush policy: what the bystanders accepted is on its way within the default interval (100 ms) plus slack, without any
+	// Flush or Close of theirs
+	if c.DefaultPolicy && !c.Outage {
+		dl := time.Now().Add(100*time.Millisecond + 2500*time.Millisecond)
+		for {
+			missing := ""
+			for _, r := range ups {
+				st := b.Upstream(r.up.ID)
+				n := 0
+				if st != nil {
+					b.Lock()
+					for _, es := range st.Chunks {
+						if len(es) > 0 {
+							n += len(es[0].Points)
+						}
+					}
+					b.Unlock()
+				}
+				if n < len(r.accepted) {
+					missing = fmt.Sprintf("%s: %d of %d accepted points transmitted", r.name, n, len(r.accepted))
+				}
+			}
+			if missing == "" {
+				break
+			}
+			if time.Now().After(dl) {
+				return ev.Failf("C07.2 bystander-held", "default flush policy (100 ms interval): 2.6 s after its last write, with no Flush or Close of its own, %s - while other streams were opened and closed (victims %v)", missing, c.Victims)
+			}
+			time.Sleep(2 * time.Millisecond)
+		}
+		k.Label("default-flush-policy")
 	}
 	// late bystanders, each behind a pilot stream that was acknowledged and closed
 	qosOf := append(append([]int(nil), c.UpQoS...), c.LateUps...)
@@ -593,6 +633,7 @@ var subConn = ev.Sub[ConnCase]{Name: "connection", Repeats: 10, Q: 40, T: 1200,
 		c.Victims = rapid.SliceOfN(rapid.SampledFrom([]string{"open-close-up", "open-close-down", "failed-open-up", "failed-open-down", "metadata", "dead-down-flood", "stray-metadata"}), 0, 8).Draw(t, "victims")
 		c.Interleave = rapid.SliceOfN(rapid.SampledFrom([]int{0, 0, 20, 100, 400}), 1, 5).Draw(t, "interleave")
 		c.ReuseAliases = rapid.Bool().Draw(t, "reuse")
+		c.DefaultPolicy = !c.Outage && rapid.IntRange(0, 3).Draw(t, "defaultpolicy") == 0
 		if !c.Outage && rapid.IntRange(0, 2).Draw(t, "late") == 0 {
 			c.LateUps = rapid.SliceOfN(rapid.IntRange(0, 2), 1, 2).Draw(t, "lateups")
 		}
@@ -612,6 +653,8 @@ func TestRegress(t *testing.T) {
 	for i := 0; i < 4; i++ {
 		subConn.One(t, ConnCase{Codec: "proto", UpQoS: []int{1, 0, 2, 1}, DownQoS: []int{1}, Writes: 6, Chunks: 4, Outage: true, Withhold: []int{3, 0, 0, 2}, Interleave: []int{0, 50}, Policy: upk.Policy{Kind: "none"}})
 	}
+	// seeded change C07/m6: bystanders on the default flush policy while a victim with the same default is opened and closed
+	subConn.One(t, ConnCase{Codec: "proto", UpQoS: []int{1, 0}, DownQoS: []int{1}, Writes: 6, Chunks: 2, Victims: []string{"open-close-up", "open-close-up"}, Interleave: []int{400}, Policy: upk.Policy{Kind: "none"}, DefaultPolicy: true})
 	// seeded change C07/m5: stray metadata for a bystander's alias, then a lifecycle operation of another stream
 	subConn.One(t, ConnCase{Codec: "proto", UpQoS: []int{1}, DownQoS: []int{1, 2}, Writes: 3, Chunks: 8, Victims: []string{"stray-metadata", "open-close-down"}, Interleave: []int{0}, Policy: upk.Policy{Kind: "none"}})
 	// seeded change C07/m2: a dead-but-served downstream floods the connection's dispatcher
